@@ -627,3 +627,107 @@ def _r_rejected(c):
 
 HANDLERS["rejected_backward"] = _r_rejected
 HANDLERS["rejected_mtl"] = _r_rejected
+
+
+# ------------------------------------------------------------------------------------------- C06
+def _storage_ptr(t):
+    return t.untyped_storage().data_ptr()
+
+
+@handler("accumulate")
+def r_accumulate(c):
+    from torchjd.autojac import backward, mtl_backward
+    from torchjd.aggregation.bases import Aggregator
+    spec = c["spec"]
+
+    class Agg(Aggregator):
+        def __init__(self, cached):
+            super().__init__()
+            self.cached, self.cache, self.seen, self.outs = cached, None, [], []
+
+        def forward(self, M):
+            self.seen.append(M)
+            if self.cached and self.cache is not None:
+                return self.cache
+            out = torch.arange(1, M.shape[1] + 1, dtype=M.dtype) * (0.5 + len(self.seen))
+            if self.cached:
+                self.cache = out
+                self.cache_copy = out.clone()
+            self.outs.append(out)
+            return out
+
+    probs = []
+    prog = RealProg(spec, c.get("jac") or {})
+    mode = c["mode"]
+    requested = c["requested"]
+    leaf_names = [l[0] for l in spec["leaves"]]
+    if c.get("pre"):
+        for n in (["a"] if mode == "backward" else ["q0", "p1"]):
+            prog[n].grad = torch.full_like(prog[n], 7.0)
+    for n in (["c"] if mode == "backward" else ["z"]):
+        prog[n].grad = torch.full_like(prog[n], 3.0)
+    agg = Agg(bool(c.get("cached")))
+    vals0 = {n: t.detach().clone() for n, t in prog.t.items()}
+    others = [n for n in leaf_names if n not in requested]
+    other0 = {n: (None if prog[n].grad is None else (id(prog[n].grad), prog[n].grad.clone())) for n in others}
+    if mode == "backward":
+        call = lambda: backward([prog["y1"], prog["y2"]], agg, inputs=[prog["a"], prog["b"]], retain_graph=True, parallel_chunk_size=c.get("chunk"))
+    else:
+        call = lambda: mtl_backward([prog["loss0"], prog["loss1"]], prog["f"], agg, tasks_params=[[prog["q0"]], [prog["q1"]]], shared_params=[prog["p0"], prog["p1"]],
+                                    retain_graph=True, parallel_chunk_size=c.get("chunk"))
+    e = int(c.get("edit", 0))
+    for k in range(int(c["n_calls"])):
+        if k > 0 and prog[requested[0]].grad is not None:
+            t = prog[requested[0]]
+            if e == 1:
+                t.grad = None
+            elif e == 2:
+                t.grad.zero_()
+            elif e == 3:
+                t.grad += 0.125
+        before = {n: (None if prog[n].grad is None else prog[n].grad.clone()) for n in requested}
+        call()
+        # the update of this call, independently: slices of the aggregator's answer in the column order it saw
+        M = agg.seen[-1].detach().numpy()
+        v = (agg.cache_copy if agg.cached else agg.outs[-1]).detach().numpy()
+        shared = requested if mode == "backward" else ["p0", "p1"]
+        upd = None
+        for pi in itertools.permutations(shared):
+            if mode == "backward":
+                J = prog.jacobian(["y1", "y2"], list(pi))
+            else:
+                J = np.stack([np.concatenate([prog.total_jac(n).get(l, np.zeros((1, prog[n].numel())))[0] for n in pi]) for l in ("loss0", "loss1")])
+            if J.shape == M.shape and close(M, J):
+                upd, off = {}, 0
+                for n in pi:
+                    kk = prog[n].numel()
+                    upd[n] = v[off:off + kk].reshape(tuple(prog[n].shape))
+                    off += kk
+                break
+        if upd is None:
+            return dict(reproduced=True, why=["matrix seen by the aggregator is not the Jacobian (see C01/C02)"])
+        if mode == "mtl":
+            upd["q0"] = prog.total_jac("q0")["loss0"][0].reshape(tuple(prog["q0"].shape))
+            upd["q1"] = prog.total_jac("q1")["loss1"][0].reshape(tuple(prog["q1"].shape))
+        for n in requested:
+            g = prog[n].grad
+            b = before[n].numpy() if before[n] is not None else 0.0
+            if g is None or not close(g.detach().numpy(), b + upd[n]):
+                probs.append(f"call {k}: .grad of {n} is not previous + update")
+            if before[n] is None and g is not None:
+                ptrs = {_storage_ptr(t): nm for nm, t in prog.t.items()}
+                ptrs.update({_storage_ptr(o): "aggregator output" for o in agg.outs})
+                ptrs.update({_storage_ptr(m): "aggregator input" for m in agg.seen})
+                ptrs.update({_storage_ptr(prog[m].grad): f"{m}.grad" for m in leaf_names if m != n and prog[m].grad is not None})
+                if _storage_ptr(g) in ptrs:
+                    probs.append(f"call {k}: freshly created .grad of {n} shares memory with {ptrs[_storage_ptr(g)]}")
+        for n, t in prog.t.items():
+            if not torch.equal(t.detach(), vals0[n]):
+                probs.append(f"call {k}: value of {n} changed")
+        for n in others:
+            g, b = prog[n].grad, other0[n]
+            if (g is None) != (b is None) or (g is not None and (id(g) != b[0] or not torch.equal(g, b[1]))):
+                probs.append(f"call {k}: .grad of un-requested {n} touched")
+        if agg.cached and not torch.equal(agg.cache, agg.cache_copy):
+            probs.append(f"call {k}: the aggregator's (cached) output tensor was mutated")
+    return dict(reproduced=bool(probs), why=probs[:4])
